@@ -19,7 +19,8 @@ def get_model_flat_parameter(model):
 
 def get_model_flat_grad(model):
     tmp0 = _get_sorted_parameter(model)
-    ret = np.concatenate([x.grad.detach().cpu().numpy().reshape(-1) for x in tmp0])
+    tmp0 = [(x.grad if (x.grad is not None) else torch.zeros_like(x)) for x in tmp0] #unused parameter
+    ret = np.concatenate([x.detach().cpu().numpy().reshape(-1) for x in tmp0])
     return ret
 
 
@@ -53,7 +54,9 @@ def hf_model_wrapper(model):
             else:
                 loss.backward() #if no .grad_backward() method, it should be a normal torch.nn.Module
             # scipy.optimize.LBFGS does not support float32 @20221118
-            grad = np.concatenate([x.grad.detach().cpu().numpy().reshape(-1).astype(theta.dtype) for x in parameter_sorted])
+            # a parameter that does not enter the loss has .grad=None, its derivative is zero
+            tmp0 = [(x.grad if (x.grad is not None) else torch.zeros_like(x)) for x in parameter_sorted]
+            grad = np.concatenate([x.detach().cpu().numpy().reshape(-1).astype(theta.dtype) for x in tmp0])
         else:
             with torch.no_grad():
                 loss = model()
